@@ -7,8 +7,8 @@ Two nodes on one exchange of one session, composed from the transliterated piece
 `TransportRunner::handle_rx_packet` compose them:
 
 * node **A** (sender): its application sends messages number 0, 1, 2, … one after the other with
-  `Exchange::send_with` (stop-and-wait: the next call starts when the previous one returned, and the
-  application stops at the first failed call);
+  `Exchange::send_with` (stop-and-wait: the next call starts when the previous one returned, the
+  application stops at the first failed call, and on an unsecured session it sends at most 17 messages);
   `send`  = first `pre_send` of a new reliable message (`Session::pre_send` takes a new counter,
             `ReliableMessage::pre_send` creates the retransmission entry),
   `retx`  = `pre_send` again after the back-off (`RetransEntry::pre_send` counts the attempt),
@@ -80,7 +80,9 @@ def window (rx : RxState) (c : Nat) (enc : Bool) : RxState × Bool := Dedup.post
 
 /-- A's `Session::pre_send(Some(exchange), reliable)` for a *new* message: the counter it takes -/
 def Sys.sendStep (s : Sys) : Option Sys :=
-  if s.cur.isSome || !s.allOk || s.aMrp.retrans.isSome then none else
+  -- (on an unsecured session the application sends at most `L + 1` messages: beyond that a copy
+  -- delayed past `L` newer counters is accepted again by the unsecured window, by specification)
+  if s.cur.isSome || !s.allOk || s.aMrp.retrans.isSome || !(s.enc || decide (s.next ≤ Dedup.L)) then none else
   let c := s.aCtr
   let r := s.aMrp.preSend c true none s.sai
   match r.2.2 with
